@@ -245,6 +245,44 @@ func C12(run *mon.Run) {
 			run.Violate("C12:public-key:bls:aggregated", fmt.Sprintf("public key of an aggregated private key differs from [sum]g2 (list composition %s, PublicKey() called beforehand on the inputs of mask %b)", comp, mask), map[string]any{"composition": comp, "mask": mask, "n": n})
 		}
 		run.Shape("bls|aggregated|" + comp)
+		// the aggregated key as an input of further aggregations (its own public key computed before or
+		// not, together with fresh keys, with itself, with an earlier aggregate): every level agrees with
+		// the reference
+		level, levelSum := agg, new(big.Int).Set(sum)
+		for depth := 1; depth <= 3; depth++ {
+			if (mask>>uint(depth))&1 == 1 || comp != "random" {
+				_ = level.PublicKey()
+			}
+			k := randScalar(r)
+			other := skFromInt(k)
+			if (i+depth)%2 == 0 {
+				_ = other.PublicKey()
+			}
+			list := []crypto.PrivateKey{level, other}
+			nsum := ref.Fr.Add(levelSum, k)
+			switch (i + depth) % 4 {
+			case 1:
+				list = []crypto.PrivateKey{other, level}
+			case 2:
+				list = []crypto.PrivateKey{level, other, level}
+				nsum = ref.Fr.Add(nsum, levelSum)
+			case 3:
+				list = []crypto.PrivateKey{level, agg, other}
+				nsum = ref.Fr.Add(nsum, sum)
+			}
+			next, err := crypto.AggregateBLSPrivateKeys(list)
+			if err != nil || nsum.Sign() == 0 {
+				break
+			}
+			run.Eval(1)
+			run.Count("reference-public-keys", 1)
+			if wp := ref.EncodeG2(ref.E2.Mul(ref.G2Gen, nsum), cv); !bytes.Equal(next.PublicKey().Encode(), wp) || !bytes.Equal(next.Encode(), ref.ScalarBytes(nsum)) {
+				run.Violate("C12:public-key:bls:aggregated-nested", fmt.Sprintf("aggregation level %d (an aggregated key aggregated again, list shape %d): private key %x, public key %x, reference scalar %x, reference public key %x", depth+1, (i+depth)%4, next.Encode(), next.PublicKey().Encode(), ref.ScalarBytes(nsum), wp), map[string]any{"composition": comp, "mask": mask, "n": n, "depth": depth + 1})
+				break
+			}
+			level, levelSum = next, nsum
+			run.Shape(fmt.Sprintf("bls|aggregated-nested|%d", depth+1))
+		}
 	}
 	// shaped BLS scalars (powers of two and neighbours at limb / window boundaries, half-empty scalars):
 	// PublicKey() = [d]g2 by the reference, for each of them
